@@ -542,6 +542,7 @@ class Exec:
             raise Unsupported(f"statement {type(node).__name__} at line {node.lineno}")
         if isinstance(node, (ast.If, ast.For, ast.While, ast.Try, ast.FunctionDef)):
             yield from m(node, st)
+            yield from self.drain_pending_raises()
             return
         # a simple statement outside the subset is acceptable only where it is provably
         # unreachable under this specialisation's precondition: that becomes an obligation
@@ -552,8 +553,18 @@ class Exec:
             self.unsupported.append((node.lineno, str(e)))
             self.oblige(snapshot, "unreachable", f"unsupported@{self.rel_line(node)}", z3.BoolVal(False), node.lineno,
                         note=f"construct outside the subset must be unreachable here: {e}")
+            yield from self.drain_pending_raises()
             return
         yield from outs
+        yield from self.drain_pending_raises()
+
+    def drain_pending_raises(self):
+        """raising outcomes of contracted calls that sat inside an expression (a comprehension element, an argument):
+        each carries the state at its call plus the callee's raising condition; the exception leaves the statement"""
+        pend = getattr(self, "pending_raises", None)
+        if pend:
+            self.pending_raises = []
+            yield from pend
 
     def rel_line(self, node):
         return node.lineno - self.unit.fn.lineno
@@ -2034,10 +2045,10 @@ class Exec:
                 st.pc.extend(s2.pc[base_len:])
             if all(isinstance(p_, TupV) for p_ in parts):
                 return TupV([i for p_ in parts for i in p_.items], kind)
-            t = S.c_empty
+            t = None
             for p_ in parts:
-                t = S.f_concat(t, self.to_seq(p_))
-            return SeqV(t, kind)
+                t = self.to_seq(p_) if t is None else S.f_concat(t, self.to_seq(p_))
+            return SeqV(S.c_empty if t is None else t, kind)
         if len(node.generators) != 1:
             raise Unsupported("nested comprehension")
         g = node.generators[0]
@@ -2070,7 +2081,8 @@ class Exec:
         self.guards.append(z3.And(0 <= j, j < n))
         self.ctx.binders.append(j)
         try:
-            self.assign(g.target, itv["elem"](j, s), s, node)
+            elem0 = itv["elem"](j, s)
+            self.assign(g.target, elem0, s, node)
             elt = self.eval(node.elt, s)
         finally:
             self.ctx.binders.pop()
@@ -2104,8 +2116,13 @@ class Exec:
         out = self.fresh_value("seq" if kind == "tuple" else "lseq", "comp")
         e = S.as_int(self.need_int(elt, s, node))
         st.pc.append(S.f_len(out.t) == z3.If(n > 0, n, 0))
-        st.pc.append(z3.ForAll([jj], z3.Implies(rng_, S.f_at(out.t, jj) == z3.substitute(e, (j, jj))),
-                               patterns=[S.f_at(out.t, jj)]))
+        pats = [S.f_at(out.t, jj)]
+        if isinstance(elem0, Opt) and elem0.n is False and z3.is_app(S._i(elem0.v)) and S._i(elem0.v).decl().name() == "iseq_at" \
+                and S._i(elem0.v).arg(1).eq(j):
+            # also instantiate the element definition wherever the *source* element is mentioned (a goal about the
+            # source sequence then reaches facts stated over the comprehension)
+            pats.append(z3.substitute(S._i(elem0.v), (j, jj)))
+        st.pc.append(z3.ForAll([jj], z3.Implies(rng_, S.f_at(out.t, jj) == z3.substitute(e, (j, jj))), patterns=pats))
         return out
 
     def expr_Call(self, node, st):
@@ -2195,8 +2212,6 @@ class Exec:
             s1.pc.append(p)
         raising = []
         if c.raises:
-            if not allow_split:
-                raise Unsupported(f"call to raising function {name} inside an expression, line {node.lineno}")
             for exc, cond in c.raises.items():
                 s2 = st.copy()
                 if cond:
@@ -2204,6 +2219,12 @@ class Exec:
                 s2.trail.append((node.lineno, f"raises {exc}"))
                 if self.feasible(s2):
                     raising.append(("raise", s2, (exc, node.lineno)))
+            if not allow_split:
+                # inside an expression: the raising outcomes leave through the enclosing statement
+                if not hasattr(self, "pending_raises"):
+                    self.pending_raises = []
+                self.pending_raises.extend(raising)
+                raising = []
         self.call_log.append((c.qualname, params, res))
         yield ("val", s1, res)
         yield from raising
